@@ -134,3 +134,38 @@ func VH_C15_v3_fresh() {
 	vrt.FrameUnchanged("a decode step on one object changes neither another object nor any package-level table")
 	vrt.Assert(!b.names[tok] && !b.Temporal.names[tok] && !b.Base.names[tok], "the other object's names maps are still empty")
 }
+
+// history-freedom, observationally: decoding, scoring, encoding and failed decodes of an arbitrary
+// FIRST vector do not change what the process then returns for an arbitrary SECOND vector. The engine
+// runs this harness twice (HistoryStep false / true) on the same symbolic inputs.
+func VH_C15_v3_history() {
+	vec1, _, _, _, _, _, _, _, _, _ := pickBaseVector()
+	esuf1, _, _, _, _, _, _, _, _, _, _, _ := pickEnv()
+	vec2, _, _, _, _, _, _, _, _, _ := pickBaseVector()
+	tsuf2, _, _, _ := pickTemporal()
+	esuf2, _, _, _, _, _, _, _, _, _, _, _ := pickEnv()
+	junk := vrt.StringNo("junk", "/")
+	if vrt.HistoryStep() {
+		em1, err1 := NewEnvironmental().Decode(vec1 + esuf1)
+		if err1 == nil {
+			_ = em1.Score()
+			_ = em1.Severity()
+			_, _ = em1.Encode()
+			_ = em1.TemporalMetrics().Score()
+			_ = em1.BaseMetrics().Score()
+		}
+		_, _ = NewEnvironmental().Decode(junk)
+		_, _ = NewBase().Decode(vec1 + "/" + junk)
+	}
+	em2, err := NewEnvironmental().Decode(vec2 + tsuf2 + esuf2)
+	vrt.Observe("accepted", err == nil)
+	if err != nil {
+		return
+	}
+	enc, _ := em2.Encode()
+	vrt.Observe("score", em2.Score())
+	vrt.Observe("severity", int(em2.Severity()))
+	vrt.Observe("encoding", enc)
+	vrt.Observe("temporal score", em2.TemporalMetrics().Score())
+	vrt.Observe("base score", em2.BaseMetrics().Score())
+}
